@@ -37,9 +37,25 @@ class HierarchyFilter(Filter):
         self._parent_hash = None
         self.update_parent(rtdc_ds.hparent)
 
+    def _get_parent_hash(self):
+        """Hash of the filters of all hierarchy ancestors
+
+        The events of a hierarchy child are defined by the filters of
+        all of its ancestors, not only by the filter of its parent.
+        """
+        hashes = []
+        ds = self._parent_rtdc_ds
+        while True:
+            hashes.append(hashobj(ds.filter.all))
+            if ds.format == "hierarchy":
+                ds = ds.hparent
+            else:
+                break
+        return hashobj(hashes)
+
     @property
     def parent_changed(self):
-        return hashobj(self._parent_rtdc_ds.filter.all) != self._parent_hash
+        return self._get_parent_hash() != self._parent_hash
 
     def apply_manual_indices(self, rtdc_ds, manual_indices):
         """Write to `self.manual`
@@ -137,4 +153,4 @@ class HierarchyFilter(Filter):
         # hold reference to rtdc_ds parent
         # (not to its filter, because that is reinstantiated)
         self._parent_rtdc_ds = parent_rtdc_ds
-        self._parent_hash = hashobj(self._parent_rtdc_ds.filter.all)
+        self._parent_hash = self._get_parent_hash()
